@@ -103,6 +103,37 @@ class SshdFamily(Family):
         return G.malformed_cases(rng, n // 2) + G.form_cases(rng, n // 2, adversarial_every=2, oks=("ok", "fail"))
 
 
+AUTYPES = ["LOGIN", "SYSCALL", "EXECVE", "USER_CMD", "CRED_DISP", "PROCTITLE", "PATH", "CWD", "USER_START", "USER_END", "USER_LOGOUT",
+           "USER_ACCT", "CRED_ACQ", "SERVICE_START", "UNKNOWN[1234]", "BOGUS_TYPE", ""]
+AUTAILS = ["", "", "", " ", "  ", "\t", "\r", " \t \r", "\x0b", "\x0c", "\xc2\xa0", "\xc2\x85", "\x00", " x", "\\n"]
+
+
+def audit_line(r, long=0):
+    """an auditd record line (no newline inside): mostly well-formed, some with odd spacing, a second 'msg=' inside the
+    body (USER_* records carry msg='…'), trailing white space of every kind, bad headers, missing tokens"""
+    t = r.choice(AUTYPES)
+    sec, ms, seq = 1600000000 + r.below(10**8), r.below(1000), r.below(2**32)
+    k = r.below(14)
+    hdr = "audit(%d.%03d:%d):" % (sec, ms, seq)
+    if k == 0:
+        hdr = r.choice(["audit(%d.%03d:%d)" % (sec, ms, seq), "audit(%d:%d):" % (sec, seq), "audit(x.y:z):", "audit(1.2:99999999999):", "audit(", "", "audit(-1.5:7):"])
+    body = " ".join("%s=%s" % (G.word(r, 1, 8, "abcdefghijklmnopqrstuvwxyz_"), r.choice([G.word(r, 1, 12), '"%s"' % G.word(r, 0, 10, G.NAMECH + " "), "?", "(none)"]))
+                    for _ in range(r.below(12)))
+    if r.below(4) == 0:
+        body += " msg='op=PAM:session_open grantors=pam_unix acct=\"%s\" exe=\"/usr/sbin/sshd\" hostname=1.2.3.4 addr=1.2.3.4 terminal=ssh res=success'" % G.word(r, 1, 8)
+    if long:
+        body += " proctitle=" + G.word(r, long, long, "0123456789ABCDEF")
+    lead = r.choice(["", "", "", " ", "  ", "\t"])
+    line = "type=%s msg=%s%s%s%s" % (t, lead, hdr, " " if body else "", body)
+    if k == 1:
+        line = line.replace(" msg=", r.choice(["  msg=", " ", " MSG=", "msg="]), 1)
+    elif k == 2:
+        line = r.choice(["msg=" + hdr, "t msg=" + hdr + " a=b", "type=msg=" + hdr, "node=h1 type=%s msg=%s %s" % (t, hdr, body), " " + line])
+    elif k == 3:
+        line = G.random_bytes(r, r.below(60)).replace("\n", " ")
+    return line + r.choice(AUTAILS)
+
+
 class C07Family(SshdFamily):
     """direct call vs. the same record framed through the syslog ingester"""
     harness_mode = ["c07"]
@@ -113,11 +144,15 @@ class C07Family(SshdFamily):
         self.uses_gen = ("RE", "ProcessEntry", "userTypeLogAuditFn")
 
     def modes_for(self, c):
+        if c.get("au"):
+            return (["auline"], ["auline"])
         if c.get("fifo"):
             return (["c07fifo"], ["c07fifo"])
         return (self.harness_mode, self.driver_args)
 
     def harness_line(self, c):
+        if c.get("au"):
+            return "%s %s" % (c["id"], ",".join(hx(l) for l in c["au"]))
         if c.get("fifo"):
             f = c["fifo"]
             return "%s %s %s pauses=%s" % (c["id"], f["ok"], ",".join(hx(x) for x in f["chunks"]), ",".join(str(p) for p in f["pauses"]))
@@ -126,7 +161,7 @@ class C07Family(SshdFamily):
     def driver_line(self, c, impl_obs):
         s = self.harness_line(c)
         if impl_obs is not None:
-            if c.get("fifo"):
+            if c.get("fifo") or c.get("au"):
                 return s + " obs=" + impl_obs
             parts = impl_obs.split(" ")
             if len(parts) == 2:
@@ -134,9 +169,13 @@ class C07Family(SshdFamily):
         return s
 
     def impl_obs_for(self, c, raw):
+        if c.get("au"):
+            return ",".join(t.split("~")[0] for t in raw.split(","))      # the direct parse; the other two are judged by the driver
         return raw if c.get("fifo") else raw.split(" ")[0]
 
     def sample(self, c):
+        if c.get("au"):
+            return {"audit_record_lines": [l.encode("latin-1").decode("utf-8", "replace")[:200] for l in c["au"][:3]], "count": len(c["au"])}
         if c.get("fifo"):
             f = c["fifo"]
             return {"through_real_fifo": True, "records": f["n"], "writes": len(f["chunks"]), "longest_pause_us": max(f["pauses"] or [0]), "write": f["ok"],
@@ -146,6 +185,8 @@ class C07Family(SshdFamily):
         return d
 
     def shrink_candidates(self, c):
+        if c.get("au"):
+            return [dict(c, au=c["au"][:i] + c["au"][i + 1:]) for i in range(len(c["au"])) if len(c["au"]) > 1]
         if c.get("fifo"):
             return []
         return [dict(x, pad=c["pad"]) for x in SshdFamily.shrink_candidates(self, c)]
@@ -194,7 +235,15 @@ class C07Family(SshdFamily):
         for slow in ([600000, 1200000] if tier == "quick" else [300000, 600000, 1200000, 2500000] * 2):
             fifo.append(self.fifo_case(rng, [rng.choice(pool) for _ in range(2)], slow_us=slow))
         self.rule += "; plus 1-6 framed records written to a real FIFO in arbitrary pieces (splits inside records, pauses), incl. records of 4-12 kB (beyond the ingester's read buffer) and a writer that stalls 0.6-2.5 s in the middle of a record, read by SyslogIngester.Ingest"
-        return cs + fifo
+        # the audit side: record lines parsed directly, with their terminator, and after the FIFO + audit log ingester
+        au = []
+        for i in range(150 * n):
+            au.append({"au": [audit_line(rng) for _ in range(1 + rng.below(8))], "pid": "", "pad": "", "line": "", "ok": "ok", "h": "ready", "form": None, "fields": None})
+        for i in range(6 * n):
+            au.append({"au": [audit_line(rng, long=rng.choice([4000, 4090, 8100, 12000])) for _ in range(1 + rng.below(3))] + [audit_line(rng)],
+                       "pid": "", "pad": "", "line": "", "ok": "ok", "h": "ready", "form": None, "fields": None})
+        self.rule += "; plus %d batches of auditd record lines (odd spacing, a second msg= inside, every kind of trailing white space, 4-12 kB records) parsed directly, with terminator, and through FIFO + AuditLogIngester" % len(au)
+        return cs + fifo + au
 
     def extra_cases(self, rng, n):
         return self._prep(G.form_cases(rng, n, adversarial_every=2) , rng)
